@@ -21,6 +21,7 @@ func C13(c *Ctx) {
 	ext := c.ExternalCalls()
 	accepted := map[string]string{
 		"(*parser.Parser).findConvergenEntries:github.com/matoous/go-nanoid.Nanoid": "per-interface placeholder marker; replaced by the generated functions (C17-4)",
+		"parser.outputOverlay:path/filepath.Abs":                                    "the absolute forms of the setup and output paths only address the loader overlay entry and are compared by directory (C12-2 checks that the value flows nowhere else); the overlay content is the package name, no path reaches the output",
 	}
 	n := 0
 	for _, e := range ext {
